@@ -71,7 +71,7 @@ template <int S> struct Runner {
     Grads out;
     // an object that reached this problem through a history gives the same adjoint (bitwise) for a dense upstream gradient
     { Lcg lg(31); Mat gd(n, D); Eigen::VectorXd gt(N); for (int r = 0; r < n; ++r) for (int d = 0; d < D; ++d) gd(r, d) = lg.dyadic(); for (int i = 0; i < N; ++i) gt(i) = lg.dyadic();
-      Grads a = sp.propagateGrad(gd, gt); for (int v = 0; v < 3; ++v) { Sp h = build_with_history<S, D>(p, v); Grads b = h.propagateGrad(gd, gt); ++c.st.comparisons; if (!grads_bits_equal(a, b)) { fail("adjoint-after-history", p, "propagateGrad on a spline updated from a larger, fully queried problem differs from a fresh one"); return; } } }
+      Grads a = sp.propagateGrad(gd, gt); for (int v = 0; v < 4; ++v) { Sp h = build_with_history<S, D>(p, v); Grads b = h.propagateGrad(gd, gt); ++c.st.comparisons; if (!grads_bits_equal(a, b)) { fail("adjoint-after-history", p, "propagateGrad on a spline updated from a larger, fully queried problem differs from a fresh one"); return; } } }
     for (int r = 0; r < n; ++r) for (int d = 0; d < D; ++d) {
       gdC(r, d) = 1.0;
       sp.propagateGrad(gdC, gdT, out);
@@ -172,7 +172,7 @@ template <int S> struct Runner {
     };
     Grads g = sp.getEnergyGrad();
     compare(g, "energy_grad_vs_jets", thr_egrad(S));
-    for (int v = 0; v < 3; ++v) { Sp h = build_with_history<S, D>(p, v); ++c.st.comparisons; if (!grads_bits_equal(h.getEnergyGrad(), g) || !bits_equal(h.getEnergy(), sp.getEnergy()) || !mat_bits_equal(h.getEnergyPartialGradByCoeffs(), sp.getEnergyPartialGradByCoeffs())) { fail("energy-grad-after-history", p, "energy / energy gradients of a spline updated from a larger, fully queried problem differ from a fresh one"); return; } }
+    for (int v = 0; v < 4; ++v) { Sp h = build_with_history<S, D>(p, v); ++c.st.comparisons; if (!grads_bits_equal(h.getEnergyGrad(), g) || !bits_equal(h.getEnergy(), sp.getEnergy()) || !mat_bits_equal(h.getEnergyPartialGradByCoeffs(), sp.getEnergyPartialGradByCoeffs())) { fail("energy-grad-after-history", p, "energy / energy gradients of a spline updated from a larger, fully queried problem differ from a fresh one"); return; } }
     { double e = (double)(fabsl((LD)sp.getEnergy() - Eref) / G); ++c.st.comparisons; c.st.obs(fmt("energy_vs_ref/%s", order_name(S)), e); if (e > thr_jac(S)) fail("energy-vs-ref", p, fmt("getEnergy %.17g vs reference %.17Lg", sp.getEnergy(), Eref)); }
     // individual getters / reference overload agree bitwise with the struct
     { Grads r; r.times = Eigen::VectorXd::Constant(2, 5.0); sp.getEnergyGrad(r);
